@@ -757,13 +757,11 @@ class EbuildProcessor:
                 )
 
             if isinstance(val, (list, tuple)):
-                assign = f"{key}=({' '.join(f'[{i}]="{value}"' for i, value in enumerate(val))})"
+                assign = f"{key}=({' '.join(f'[{i}]={self._quote_array_element(value)}' for i, value in enumerate(val))})"
             elif val.isalnum():
                 assign = f"{key}={val}"
-            elif "'" not in val:
-                assign = f"{key}='{val}'"
             else:
-                assign = f"{key}=$'{val.replace("'", "\\'")}'"
+                assign = f"{key}={self._quote_env_value(val)}"
 
             (plain if key in nonexported else exported).append(assign)
 
@@ -778,6 +776,23 @@ class EbuildProcessor:
         if exported:
             lines.append(f"export {' '.join(exported)}")
         return "\n".join(lines)
+
+    @staticmethod
+    def _quote_env_value(val):
+        """Quote a string so that bash reads back exactly that string."""
+        if "'" not in val:
+            return f"'{val}'"
+        # $'...' interprets backslash escapes, so literal backslashes have to be
+        # doubled before the quotes are escaped.
+        escaped = val.replace("\\", "\\\\").replace("'", "\\'")
+        return f"$'{escaped}'"
+
+    @classmethod
+    def _quote_array_element(cls, val):
+        # double quotes are fine as long as nothing in there is special to them
+        if not any(c in val for c in '$`\\"'):
+            return f'"{val}"'
+        return cls._quote_env_value(val)
 
     def send_env(self, env_dict, async_req=False, tmpdir=None):
         """Transfer the ebuild's desired env (env_dict) to the running daemon.
